@@ -27,6 +27,7 @@ LIB_FILES = ['include/clipper2/clipper.core.h', 'include/clipper2/clipper.engine
 STRUCT_CLASSES = {'pt': ('Point', 'long', cfg.PF), 'ptd': ('Point', 'double', cfg.PF),
                   'u128': ('UInt128Struct', None, 'UInt128Struct')}
 VERSION = '1'
+AST_CACHE = True      # set to False to re-run clang even when the inputs are unchanged
 
 
 def sha(*parts):
@@ -101,7 +102,7 @@ def run_clang(repo, work, tu, filt, key, verbose=False):
     cdir = os.path.join(CACHE, 'ast')
     os.makedirs(cdir, exist_ok=True)
     cpath = os.path.join(cdir, sha(key, tu, filt)[:40] + '.json.gz')
-    if os.path.exists(cpath):
+    if AST_CACHE and os.path.exists(cpath):
         try:
             with gzip.open(cpath, 'rt') as f:
                 return parse_docs(f.read())
@@ -428,7 +429,11 @@ def generate(repo, verbose=False):
             else:
                 txt = translate_function(world, spec, docs)
             chunks[spec['file']].append(txt)
-        except Unsupported as e:
+        except Exception as e:
+            if not isinstance(e, Unsupported):      # a translator bug must not take the other targets down
+                import traceback
+                tb = traceback.extract_tb(e.__traceback__)[-1]
+                e = Unsupported('internal translator error %s: %s (%s:%d)' % (type(e).__name__, e, os.path.basename(tb.filename), tb.lineno))
             world.failed[spec['name']] = str(e)
             failures.append('%s: %s' % (spec['name'], e))
             chunks[spec['file']].append('(* CPP2V-FAIL %s: %s\n   (no definition emitted) *)' %
@@ -463,13 +468,25 @@ def regenerate(repo='/repo', out=os.path.join(VERIF, 'coq', 'gen'), use_cache=Tr
         except Exception:
             res = None
     if res is None:
-        outputs, failures = generate(repo, verbose)
-        res = dict(outputs=outputs, failures=failures)
-        tmp = cpath + '.tmp%d' % os.getpid()
-        with open(tmp, 'w') as f:
-            json.dump(res, f)
-        os.replace(tmp, cpath)
-        _trim()
+        import fcntl
+        with open(os.path.join(CACHE, 'lock'), 'w') as lk:      # concurrent checks: translate once
+            fcntl.flock(lk, fcntl.LOCK_EX)
+            try:
+                if use_cache and os.path.exists(cpath):
+                    try:
+                        res = json.load(open(cpath))
+                    except Exception:
+                        res = None
+                if res is None:
+                    outputs, failures = generate(repo, verbose)
+                    res = dict(outputs=outputs, failures=failures)
+                    tmp = cpath + '.tmp%d' % os.getpid()
+                    with open(tmp, 'w') as f:
+                        json.dump(res, f)
+                    os.replace(tmp, cpath)
+                    _trim()
+            finally:
+                fcntl.flock(lk, fcntl.LOCK_UN)
     os.makedirs(out, exist_ok=True)
     for fn, txt in res['outputs'].items():
         p = os.path.join(out, fn)
@@ -503,8 +520,10 @@ def main():
     ap.add_argument('-v', '--verbose', action='store_true')
     a = ap.parse_args()
     t0 = time.time()
+    global AST_CACHE
+    if a.no_cache:
+        AST_CACHE = False
     ok, failures = regenerate(a.repo, a.out, use_cache=not a.no_cache, verbose=a.verbose)
-    optional = set(t['name'] for t in cfg.TARGETS if t['optional'])
     for f in failures:
         print('CPP2V-FAIL ' + f)
     n = len(cfg.TARGETS)
